@@ -717,3 +717,97 @@ func init() {
 			return out
 		}})
 }
+
+// RESIZECOND — bringing a receiver to the working level is not made conditional on the receiver being too low.
+//
+// `ct.Resize(ct.Degree(), level)` became `if ct.Level() < pt.Level() { ct.Resize(ct.Degree(), level) }` ("skip when
+// nothing to resize", comparison reversed): a receiver above the level of the plaintext is no longer cut, the operation
+// writes the lower residues only and the upper ones keep whatever they held under a level that declares them valid.
+//
+// Rule: no `X.Resize(…)` stands under an if without else whose condition is `X.Level() < E` (or `E > X.Level()`): a
+// Resize that depends on the level is wanted when the levels differ (`!=`), or at least when the receiver is above.
+func scanResizeCond(c *core.Ctx) []ob {
+	var out []ob
+	n := 0
+	c.FuncDecls(func(pk *packages.Package, file *ast.File, fd *ast.FuncDecl) {
+		if fd.Body == nil || fileIsTestSupport(c.Program, fd.Pos()) || inExamples(pk) {
+			return
+		}
+		fkey := core.FuncKey(pk, fd)
+		levelOf := func(e ast.Expr) string {
+			if call, ok := unparen(e).(*ast.CallExpr); ok && len(call.Args) == 0 {
+				if s, ok := unparen(call.Fun).(*ast.SelectorExpr); ok && (s.Sel.Name == "Level" || s.Sel.Name == "LevelQ") {
+					return exprString(s.X)
+				}
+			}
+			return ""
+		}
+		ast.Inspect(fd.Body, func(x ast.Node) bool {
+			is, ok := x.(*ast.IfStmt)
+			if !ok {
+				return true
+			}
+			// Resize calls directly under this if
+			var resized []string
+			var pos token.Pos
+			for _, st := range is.Body.List {
+				if es, ok := st.(*ast.ExprStmt); ok {
+					if call, ok := es.X.(*ast.CallExpr); ok {
+						if s, ok := unparen(call.Fun).(*ast.SelectorExpr); ok && s.Sel.Name == "Resize" {
+							resized = append(resized, strings.TrimSuffix(exprString(s.X), ".El()"))
+							pos = call.Pos()
+						}
+					}
+				}
+			}
+			if len(resized) == 0 {
+				return true
+			}
+			n++
+			if is.Else != nil {
+				return true
+			}
+			be, ok := unparen(is.Cond).(*ast.BinaryExpr)
+			if !ok {
+				return true
+			}
+			low := ""
+			switch be.Op {
+			case token.LSS, token.LEQ:
+				low = levelOf(be.X)
+			case token.GTR, token.GEQ:
+				low = levelOf(be.Y)
+			}
+			if low == "" {
+				return true
+			}
+			for _, r := range resized {
+				if r == low {
+					out = append(out, withProps(violOb("RESIZECOND", fmt.Sprintf("RESIZECOND:%s#%s", fkey, r), c.Rel(pos), fmt.Sprintf("%s resizes %s only when `%s`: an element above the working level is not cut, the operation then writes its lower residues only and the upper ones keep what they held under a level that declares them valid", fkey, r, exprString(is.Cond))), propsForKey(fkey)...))
+				}
+			}
+			return true
+		})
+	})
+	c.Stats["resizecond_sites"] = n
+	out = append(out, okOb("RESIZECOND", "RESIZECOND:module", "", fmt.Sprintf("%d conditional Resize calls examined, none is conditional on the element being below a level", n), true))
+	return out
+}
+
+func init() {
+	all := []string{"C03", "C04", "C05", "C06", "C09", "C11", "C12", "C16", "C20"}
+	core.Register(&core.Rule{Name: "RESIZECOND", Wide: true, Props: all,
+		Doc: "no Resize of an element stands under an if without else whose condition is that the element's level is below another level: the element above the working level must be cut as well",
+		Run: func(c *core.Ctx) []ob {
+			out := scanResizeCond(c)
+			for i := range out {
+				if out[i].Key == "RESIZECOND:module" {
+					out[i] = withProps(out[i], all...)
+				}
+			}
+			for _, o := range control(c, "RESIZECOND", scanResizeCond, "lvfixture.raiseOnly") {
+				out = append(out, withProps(o, "C03", "C09"))
+			}
+			return out
+		}})
+}
